@@ -346,6 +346,92 @@ func c10lookup(p *Prog, r *Report) {
 		r.Check(ok1 && ok2 && retIdx != nil, rule, "PeerSetCache.Get:interval", p.ipos(rp.ret), fnName(get), "returns peerSets[rounds[i]] only if rounds[i] <= round < rounds[i+1] (interval test, or first hit of a scan from the top)",
 			fmt.Sprintf("interval test broken: round>=rounds[i]:%v round<rounds[i+1] (or downward first-hit scan):%v returns-entry-i:%v", ok1, ok2, retIdx != nil))
 	}
+	// third exact form: binary search. S = sort.Search(len(rounds), func(i) bool { return rounds[i] > round })
+	// is the first position above round, so rounds[S-1] <= round < rounds[S]: the entry returned must be S-1.
+	for _, sc := range callsIn(get, named("sort.Search")) {
+		c, isCall := sc.(*ssa.Call)
+		if !isCall || len(c.Call.Args) != 2 {
+			continue
+		}
+		nLoopRet++
+		okLen := false
+		if x, isLen := isLenOf(c.Call.Args[0]); isLen {
+			if fv, _ := fieldOf(x); fv == fRounds {
+				okLen = true
+			}
+		}
+		okPred := false
+		if mc, isMk := unwrap(c.Call.Args[1]).(*ssa.MakeClosure); isMk {
+			if cl, isFn := mc.Fn.(*ssa.Function); isFn && len(cl.Params) == 1 {
+				okPred = true
+				nret := 0
+				for _, b := range cl.Blocks {
+					ret, isRet := b.Instrs[len(b.Instrs)-1].(*ssa.Return)
+					if !isRet {
+						continue
+					}
+					nret++
+					// returned value: rounds[i] > round  (strict), i the closure's parameter
+					a, bb, strict, ok := cmpLit(Lit{V: ret.Results[0], Pos: true})
+					good := ok && strict && flowsFromLocal(bb, func(x ssa.Value) bool { return x == round })
+					if good {
+						u, isU := unwrap(a).(*ssa.UnOp)
+						good = false
+						if isU {
+							if ia, isIA := u.X.(*ssa.IndexAddr); isIA && unwrap(ia.Index) == ssa.Value(cl.Params[0]) {
+								if fv, _ := fieldOf(ia.X); fv == fRounds {
+									good = true
+								}
+							}
+						}
+					}
+					if !good {
+						okPred = false
+					}
+				}
+				if nret != 1 {
+					okPred = false
+				}
+			}
+		}
+		// every success return that depends on the search returns entry S-1
+		okRet, nr := true, 0
+		for _, rp := range p.succRets(get, errNil, 1) {
+			if !dependsOn(rp.ret.Results[0], func(x ssa.Value) bool { return x == ssa.Value(c) }) {
+				continue
+			}
+			nr++
+			good := false
+			dependsOn(rp.ret.Results[0], func(x ssa.Value) bool {
+				lk, ok := x.(*ssa.Lookup)
+				if !ok {
+					return false
+				}
+				u, isU := unwrap(lk.Index).(*ssa.UnOp)
+				if !isU {
+					return false
+				}
+				ia, isIA := u.X.(*ssa.IndexAddr)
+				if !isIA {
+					return false
+				}
+				if fv, _ := fieldOf(ia.X); fv != fRounds {
+					return false
+				}
+				if bo, isB := unwrap(ia.Index).(*ssa.BinOp); isB && bo.Op == token.SUB && unwrap(bo.X) == ssa.Value(c) {
+					if k, okc := intConst(bo.Y); okc && k == 1 {
+						good = true
+					}
+				}
+				return true
+			})
+			if !good {
+				okRet = false
+			}
+		}
+		r.Check(okLen && okPred && okRet && nr > 0, rule, "PeerSetCache.Get:interval", p.ipos(c), fnName(get), "binary search for the first recorded round above the requested one; the entry before it is returned",
+			fmt.Sprintf("binary-search form broken: searches all of rounds:%v predicate is rounds[i] > round:%v returns entry S-1:%v", okLen, okPred, okRet && nr > 0))
+	}
 	if nLoopRet == 0 {
 		r.Fail(rule, "PeerSetCache.Get:interval", p.pos(get.Pos()), fnName(get), "no interval search found in PeerSetCache.Get")
 	}
@@ -378,7 +464,7 @@ func c10member(p *Prog, r *Report) {
 				return false
 			}
 			fv, base := fieldOf(lk.X)
-			if fv == nil || fv.Name() != "ByPubKey" {
+			if fv == nil || refName(fv) != "ByPubKey" {
 				return false
 			}
 			okSet := dependsOn(base, func(x ssa.Value) bool {
@@ -392,6 +478,9 @@ func c10member(p *Prog, r *Report) {
 			r.Fail(rule, "_witness:returns", p.pos(w.Pos()), fnName(w), "no true-capable return")
 		}
 		for i, rp := range rets {
+			if rp.val != nil && dependsOn(rp.val, func(x ssa.Value) bool { _, _, isGet := isCallTo(x, named(COMM+".LRU.Get")); return isGet }) {
+				continue // a memoised answer (merged wrapper): justified when it was computed (C03.memo: the cache only holds computed results)
+			}
 			ok, _ := p.holdsAtRet(rp, []Pred{p.lift(q, 1)}, all(1))
 			r.Check(ok, rule, fmt.Sprintf("_witness:return-true#%d:creator-in-round-set", i), p.ipos(rp.ret), fnName(w), "witness only if creator belongs to the round's peer set", "a true-capable return is not guarded by membership of the creator in the peer set of the event's round")
 		}
@@ -592,7 +681,7 @@ func describeVal(v ssa.Value) string {
 					s += ", "
 				}
 				if fv, _ := fieldOf(a); fv != nil {
-					s += "." + fv.Name()
+					s += "." + refName(fv)
 				} else {
 					s += a.Name()
 				}
